@@ -1,8 +1,14 @@
-(* Proofs about Model/LongNames.v: Joliet UTF-16BE names, Rock Ridge NM splitting, SL symlink targets.
+(* Proofs about Model/LongNames.v: Joliet UTF-16BE names, Rock Ridge NM splitting, SL symlink targets (the SL part
+   for rockridge.py after the repair "symlink components are accounted and recorded by their real length").
    Main results: utf16_roundtrip, utf16_length, units_le_utf8, joliet_fits, joliet_dr_fits,
-   joliet_over_refusal; nm_roundtrip, nm_flags_ok, nm_piece_bounds; sl_roundtrip_partial (guard sl_ok),
-   sl_roundtrip (room-independent guard no_dot_names), sl_roundtrip_refuted, sl_no_ce_refuted,
-   pycdlib_reader_root_refuted, readers_agree_bounded; sl_record_flags, cut_name_flags, sl_component_flags. *)
+   joliet_over_refusal; nm_roundtrip, nm_flags_ok, nm_piece_bounds;
+   sl_roundtrip_all (EVERY non-empty target reads back, 3 <= r2), its corollaries sl_roundtrip_partial (sl_ok) and
+   sl_roundtrip (no_dot_names); sl_rooms (every record fits the room it was opened with),
+   sl_no_ce_single_record / sl_no_ce_roundtrip (first pass: the uncut entry fits -> one record, nothing lost);
+   pycdlib_reader_root_refuted (reader side, unchanged), readers_agree_bounded;
+   sl_record_flags, cut_name_flags, sl_component_flags.
+   Gone with the repair: sl_roundtrip_refuted, sl_no_ce_refuted, w_dot_reads_as, w_dotdot_reads_as, w_many_reads_as
+   (their witnesses are the Examples w_dot_reads_back, w_dotdot_reads_back, w_many_reads_back). *)
 From Coq Require Import ZArith List Bool Lia ZifyBool.
 Import ListNotations.
 From PV.Model Require Import LongNames.
